@@ -490,10 +490,13 @@ class Builtins:
         if len(node.generators) != 1 or node.generators[0].is_async:
             raise Unsupported("comprehension with several generators")
         g = node.generators[0]
-        if g.ifs:
-            raise Unsupported("comprehension with a condition")
 
         def k_iter(it, st2):
+            if g.ifs:
+                items0 = I.concrete_items(it, st2)
+                if items0 is None:
+                    raise Unsupported("comprehension with a condition over a symbolic iterable")
+                return self.concrete_comp(kind, node, g, items0, st2, k)
             if kind == "list" and isinstance(it, VRef) and st2.heap[it.oid].kind == "set":
                 # a list built from the members of a set: order (and multiplicity of equal images) unspecified;
                 # what is known is its member set, the image of the set
@@ -657,10 +660,16 @@ class Builtins:
                     return self.new_set_from_values(acc, st2, k)
                 return self.new_dict_from_pairs(acc, st2, k)
 
-            def body(st3):
+            def take(st3):
                 if kind == "dict":
                     return I.ev(node.key, st3, lambda kv, s4: I.ev(node.value, s4, lambda vv, s5: go(i + 1, acc + [(kv, vv)], s5)))
                 return I.ev(node.elt, st3, lambda v, s4: go(i + 1, acc + [v], s4))
+
+            def body(st3, j=0):
+                if j == len(g.ifs):
+                    return take(st3)
+                return I.ev(g.ifs[j], st3, lambda c, s4: self.cx.branch(
+                    s4, truth(self.cx, c, s4), lambda a: body(a, j + 1), lambda b: go(i + 1, acc, b)))
             return I.assign(g.target, items[i], st2, body)
         return go(0, [], st)
 
@@ -1011,6 +1020,19 @@ class Builtins:
     def m_str_format(self, s_, args, kwargs, st, k):
         return k(VStr(), st)
 
+    def _str_terms(self, s_, args):
+        if s_.t is None or not args or not isinstance(args[0], VStr) or args[0].t is None:
+            raise Unsupported("string method on an opaque string")
+        return s_.t, args[0].t
+
+    def m_str_startswith(self, s_, args, kwargs, st, k):
+        a, b = self._str_terms(s_, args)
+        return k(VBool(z3.PrefixOf(b, a)), st)
+
+    def m_str_endswith(self, s_, args, kwargs, st, k):
+        a, b = self._str_terms(s_, args)
+        return k(VBool(z3.SuffixOf(b, a)), st)
+
     # ---- slice ----
     def m_slice_indices(self, sl, args, kwargs, st, k):
         n = _as_int(args[0])
@@ -1071,7 +1093,17 @@ class Builtins:
 
     def m_list_append(self, ref, args, kwargs, st, k):
         s = self._seq(ref, st)
-        return k(NONE, self.set_payload(ref, z3.Concat(s, z3.Unit(as_val(self.cx, args[0], st))), st))
+        h = st.heap[ref.oid]
+        items = h.meta.get("pyitems")
+        if s is None:
+            if items is None:
+                raise Unsupported("append to a list without a model")
+            return k(NONE, st.put(ref.oid, HObj(h.kind, None, h.cls, h.fields, dict(h.meta, pyitems=tuple(items) + (args[0],)))))
+        st2 = self.set_payload(ref, z3.Concat(s, z3.Unit(as_val(self.cx, args[0], st))), st)
+        if items is not None:      # a list built from a display stays known item by item
+            h2 = st2.heap[ref.oid]
+            st2 = st2.put(ref.oid, HObj(h2.kind, h2.payload, h2.cls, h2.fields, dict(h2.meta, pyitems=tuple(items) + (args[0],))))
+        return k(NONE, st2)
 
     def m_list_extend(self, ref, args, kwargs, st, k):
         s = self._seq(ref, st)
